@@ -788,13 +788,35 @@ class QueueWriter(Obj):
         pass
 
     def m_put(self, ex, st, args, kwargs, node):
+        block = kwargs.get('block', args[1] if len(args) > 1 else None)
+        timeout = kwargs.get('timeout', args[2] if len(args) > 2 else None)
+        may_fail = (block is not None and not z3.is_true(z3.simplify(block))) or \
+                   (timeout is not None and not (is_z3(timeout) and timeout.sort() == Val and z3.is_true(z3.simplify(timeout == NONE))))
+        s0 = st
         st = st.fork()
         k = self.nput(st)
         item = args[0]
         ex.unit.on_put(ex, st, self, k, item, node)
         st.ghost[self.key + '.nput'] = k + 1
-        st.ghost['#blocking'] = st.ghost.get('#blocking', ()) + ((node.lineno, f'put {self.label}', ()),)
-        return [('ok', st, NONE)]
+        outs = [('ok', st, NONE)]
+        if may_fail:
+            outs.append(ex.raise_new(s0.fork(), 'queue.Full'))      # non-blocking / timed put on a full queue
+        else:
+            st.ghost['#blocking'] = st.ghost.get('#blocking', ()) + ((node.lineno, f'put {self.label}', ()),)
+        return outs
+
+    def m_put_nowait(self, ex, st, args, kwargs, node):
+        return self.m_put(ex, st, args, {'block': z3.BoolVal(False)}, node)
+
+    def m_full(self, ex, st, args, kwargs, node):
+        return [('ok', st, fresh('full', z3.BoolSort()))]        # volatile: the reader may take items at any time
+
+    def m_empty(self, ex, st, args, kwargs, node):
+        return [('ok', st, fresh('empty', z3.BoolSort()))]
+
+    def m_qsize(self, ex, st, args, kwargs, node):
+        n = fresh('qsize', z3.IntSort())
+        return [('ok', st.fork().assume(n >= 0), n)]
 
 
 class QueueReader(Obj):
